@@ -1,6 +1,7 @@
 """C16 — distributed execution agrees with the sequential meaning of the script (DESIGN §4/C16)."""
 from rules import lib, facts
 from rules.lib import Prov, PathProv, show, walk
+from props import common
 
 LEVEL = ("Control-skeleton level only: for each structural instruction the conditions under which a child runs "
          "(seq: second child iff the first returned Ok and the subgraph is complete; par: both children always, error iff "
@@ -31,6 +32,10 @@ def check(ctx):
     ctx.clause("R-TABLE/R-GUARD child-execution conditions of Seq, Par, Match, MisMatch, FoldScalar, Next, Never")
     ctx.clause("R-PAIR scoping: fold start/end + iterable set/remove, next before/after, new prolog/epilog")
     ctx.clause("R-TABLE joinable!: only is_joinable() errors become Ok with the subgraph marked incomplete")
+
+    # what seq's completeness test relies on: a call that ends without a result marks the subgraph incomplete
+    ctx.clause("R-TABLE a call that ends without a result marks the subgraph incomplete (the condition Seq tests before its second child)")
+    common.pending_call_blocks_sequence(ctx, F)
 
     # Seq
     s = exe(F, "::Seq<'i>")
